@@ -9,3 +9,5 @@ mod keycodes;
 mod phonetic;
 pub mod suggestion;
 mod utility;
+#[cfg(feature = "verif_hooks")]
+pub mod verif_fs;
